@@ -2,6 +2,7 @@ import Claripy.VSA.Conc
 import ClaripyProofs.Lemmas.VSA.AddSub
 import ClaripyProofs.Lemmas.VSA.Lub
 import ClaripyProofs.Lemmas.VSA.Members
+import ClaripyProofs.Lemmas.VSA.MinMax
 /-!
 # C22 — joins, meets, widening and queries agree with the members
 
@@ -76,6 +77,29 @@ example : (SI.new 4 5 13 7).members = [13, 2, 7] ∧ (SI.new 4 5 13 7).cardinali
     (SI.new 4 5 13 7).solution 2 = .ok true ∧ (SI.new 4 5 13 7).solution 3 = .ok false := by decide
 
 /-! ## widen — false on the code (findings C22-widen-lower, -wrap, -upper, -unaligned) -/
+
+/-! ## min / max -/
+
+/-- unsigned `min` / `max` bound every member (any well-formed interval, aligned or not, wrapping or not) -/
+theorem C22_min_max_bound (s : SI) (x : Nat) (hs : s.WF) (hx : s.mem x) :
+    (∀ m, s.min false = .ok (some m) → m ≤ x) ∧ (∀ m, s.max false = .ok (some m) → (x : Int) ≤ m) :=
+  ⟨fun m h => min_le s m x hs hx h, fun m h => le_max s m x hs hx h⟩
+
+/-- the unsigned minimum is attained (it is a member), hence exact; `max` is exact only for aligned intervals
+(`max_unaligned_wrong` below) -/
+theorem C22_min_exact (s : SI) (m : Int) (hs : s.WF) (hnb : s.bottom = false) (h : s.min false = .ok (some m)) :
+    (∃ x, s.mem x ∧ (x : Int) = m) ∧ ∀ y, s.mem y → m ≤ y :=
+  ⟨min_attained s m hs hnb h, fun y hy => min_le s m y hs hy h⟩
+
+/-- signed `min` / `max` bound the signed value of every member (interval in constructor-normal form) -/
+theorem C22_signed_min_max_bound (s : SI) (x : Nat) (hs : s.WF) (hn : s.renorm = s) (hx : s.mem x) :
+    (∀ m, s.min true = .ok (some m) → m ≤ Conc.toInt s.bits x) ∧
+    (∀ m, s.max true = .ok (some m) → Conc.toInt s.bits x ≤ m) :=
+  ⟨fun m h => smin_le s m x hs hn hx h, fun m h => le_smax s m x hs hn hx h⟩
+
+/-- non-vacuity: a wrapping interval with an odd stride -/
+example : (SI.new 4 3 13 6).WF ∧ (SI.new 4 3 13 6).min false = .ok (some 0) ∧ (SI.new 4 3 13 6).max false = .ok (some 13) ∧
+    (SI.new 4 3 13 6).min true = .ok (some (-3)) ∧ (SI.new 4 3 13 6).max true = .ok (some 6) ∧ (SI.new 4 3 13 6).mem 0 := by decide
 
 def C22_widen_full : Prop := JoinSound SI.widen noGuard
 
